@@ -119,6 +119,41 @@ pub enum Tweak {
     Reverse,
     /// rotate the raw iteration order left by len*permille/1000
     Rotate(u32),
+    /// member `index` (optionally reversed) of the adjacency-covering family over the elements
+    /// taken in a canonical base order (see `zigzag`)
+    Zigzag { index: u32, reverse: bool },
+}
+
+/// The adjacency-covering family. For even m the complete graph K_m decomposes into m/2
+/// Hamiltonian paths (Walecki's zigzag: i, i+1, i-1, i+2, i-2, … mod m); walking each path in both
+/// directions gives m permutations in which **every ordered pair (a, b), a != b, is adjacent
+/// exactly once**, and every element is first once and last once. For odd n the family for n+1 is
+/// used with the dummy element deleted (adjacent pairs stay adjacent). Returns a permutation of
+/// 0..n.
+pub fn zigzag(n: usize, index: u32, reverse: bool) -> Vec<u32> {
+    if n == 0 {
+        return vec![];
+    }
+    let m = if n % 2 == 0 { n } else { n + 1 } as i64;
+    let i = (index as i64) % (m / 2).max(1);
+    let mut v: Vec<u32> = Vec::with_capacity(n);
+    for k in 0..m {
+        // offsets 0, +1, -1, +2, -2, …
+        let off = if k % 2 == 1 { (k + 1) / 2 } else { -(k / 2) };
+        let x = (i + off).rem_euclid(m);
+        if (x as usize) < n {
+            v.push(x as u32);
+        }
+    }
+    if reverse {
+        v.reverse();
+    }
+    v
+}
+
+/// number of members of the family for n elements
+pub fn zigzag_family_size(n: usize) -> u32 {
+    (if n % 2 == 0 { n } else { n + 1 }) as u32
 }
 
 #[derive(Clone, Debug, PartialEq, Eq)]
@@ -170,6 +205,8 @@ pub enum DirMode {
     NearSorted { swaps: u32 },
     /// sorted, rotated by a random offset
     Rotated,
+    /// member of the adjacency-covering family (deterministic batch)
+    Cover { index: u32, reverse: bool },
 }
 
 #[derive(Clone, Copy, Debug, PartialEq, Eq)]
@@ -188,6 +225,8 @@ pub struct Profile {
     pub hash: HashMode,
     pub tweaks: bool,
     pub io: bool,
+    /// deterministic batch: every container iterates in this member of the covering family
+    pub cover_iter: Option<(u32, bool)>,
 }
 
 impl Profile {
@@ -196,6 +235,7 @@ impl Profile {
         hash: HashMode::Zero,
         tweaks: false,
         io: false,
+        cover_iter: None,
     };
 
     /// Swarm-style: every run draws its own mix.
@@ -221,7 +261,27 @@ impl Profile {
         };
         let tweaks = rng.chance(1, 2);
         let io = rng.chance(1, 2);
-        Profile { dir, hash, tweaks, io }
+        Profile {
+            dir,
+            hash,
+            tweaks,
+            io,
+            cover_iter: None,
+        }
+    }
+
+    /// member `j` of the deterministic adjacency-covering batch
+    pub fn cover(j: u32) -> Profile {
+        Profile {
+            dir: DirMode::Cover {
+                index: j / 2,
+                reverse: j % 2 == 1,
+            },
+            hash: HashMode::Zero,
+            tweaks: false,
+            io: false,
+            cover_iter: Some((j / 2, j % 2 == 1)),
+        }
     }
 
     pub fn name(&self) -> String {
@@ -237,6 +297,7 @@ impl Profile {
             ),
             DirMode::NearSorted { swaps } => format!("dir=nearsorted({})", swaps),
             DirMode::Rotated => "dir=rotated".to_string(),
+            DirMode::Cover { index, reverse } => format!("dir=cover({}{})", index, if reverse { ",rev" } else { "" }),
         };
         let h = match self.hash {
             HashMode::Fresh => "hash=fresh",
@@ -260,6 +321,7 @@ impl Profile {
             DirMode::Spotlight { .. } => "spotlight",
             DirMode::NearSorted { .. } => "nearsorted",
             DirMode::Rotated => "rotated",
+            DirMode::Cover { .. } => "cover",
         }
     }
 }
@@ -498,7 +560,9 @@ impl World {
                     HashMode::Shared(a, b) => (a, b),
                     HashMode::Zero => (0, 0),
                 };
-                let tweak = if profile.tweaks {
+                let tweak = if let Some((index, reverse)) = profile.cover_iter {
+                    Tweak::Zigzag { index, reverse }
+                } else if profile.tweaks {
                     match rng.below(3) {
                         0 => Tweak::None,
                         1 => Tweak::Reverse,
@@ -534,6 +598,7 @@ impl World {
             Tweak::None => 0,
             Tweak::Reverse => 1,
             Tweak::Rotate(p) => 2 + p as u64,
+            Tweak::Zigzag { index, reverse } => 5000 + 2 * index as u64 + reverse as u64,
         };
         self.event(if kind == 'M' { "new_map" } else { "new_set" }, k0 ^ t, k1);
         self.trace.push(Decision::Container { kind, k0, k1, tweak });
@@ -609,6 +674,38 @@ pub fn gen_dir_order(rng: &mut Rng, mode: DirMode, n: usize) -> Vec<u32> {
             let r = rng.below(n as u64) as usize;
             v.rotate_left(r);
         }
+        DirMode::Cover { index, reverse } => v = zigzag(n, index, reverse),
     }
     v
+}
+
+#[cfg(test)]
+mod tests {
+    use super::*;
+    use std::collections::HashSet;
+
+    #[test]
+    fn zigzag_family_covers_every_ordered_adjacency() {
+        for n in [2usize, 3, 4, 5, 6, 7, 8, 9, 16, 17, 50, 51] {
+            let mut adj: HashSet<(u32, u32)> = HashSet::new();
+            let mut first = HashSet::new();
+            let mut last = HashSet::new();
+            for j in 0..zigzag_family_size(n) {
+                let p = zigzag(n, j / 2, j % 2 == 1);
+                let mut sorted = p.clone();
+                sorted.sort();
+                assert_eq!(sorted, (0..n as u32).collect::<Vec<_>>(), "n={} j={} not a permutation", n, j);
+                for w in p.windows(2) {
+                    adj.insert((w[0], w[1]));
+                }
+                first.insert(p[0]);
+                last.insert(*p.last().unwrap());
+            }
+            assert_eq!(adj.len(), n * (n - 1), "n={}: not every ordered pair is adjacent", n);
+            if n % 2 == 0 {
+                assert_eq!(first.len(), n);
+                assert_eq!(last.len(), n);
+            }
+        }
+    }
 }
